@@ -209,7 +209,29 @@ def plan_obligations(L):
                     cur = hit
                 if not okc:
                     bad_plan.append((n, si, t, 'push chain'))
+    # the shape facts the engine contracts assume of the tables (contracts/parser.py TABLES_WF, PUSHES_WF, ARCS_WF):
+    # every arc target and plan target is a DFAState of the same grammar, every pushed entry is a DFAState, all
+    # states of a rule carry the rule's name
+    bad_shape = []
+    all_states = {id(d) for dfas in pg.nonterminal_to_dfas.values() for d in dfas}
+    for n, dfas in pg.nonterminal_to_dfas.items():
+        for si, s_ in enumerate(dfas):
+            if s_.from_rule != n:
+                bad_shape.append((n, si, 'from_rule %r' % s_.from_rule))
+            for l, nxt in s_.arcs.items():
+                if not isinstance(nxt, gen.DFAState) or id(nxt) not in all_states or not isinstance(l, str):
+                    bad_shape.append((n, si, 'arc %r' % (l,)))
+                elif nxt.from_rule != n:
+                    bad_shape.append((n, si, 'arc %r leaves the rule' % (l,)))
+            for k, plan in s_.transitions.items():
+                if not isinstance(plan, gen.DFAPlan) or not isinstance(plan.next_dfa, gen.DFAState) \
+                        or id(plan.next_dfa) not in all_states or not isinstance(plan.dfa_pushes, list) \
+                        or not all(isinstance(d, gen.DFAState) and id(d) in all_states for d in plan.dfa_pushes):
+                    bad_shape.append((n, si, 'plan for %r' % (k,)))
     obs = [
+        _ob('tab:%s:shape' % v, not bad_shape,
+            'every arc / plan target / pushed entry is a DFAState of this grammar, arcs stay inside their rule '
+            '(TABLES_WF, PUSHES_WF, ARCS_WF of the engine contracts)', bad_shape, F),
         _ob('tab:%s:transitions-exact' % v, not bad_keys,
             'for every state the token-to-action table has exactly the keys {terminal arcs} + {FIRST(X) : nonterminal arc X}, '
             'no token claimed twice (FIRST computed independently as least fixpoint)', bad_keys, F),
